@@ -33,6 +33,9 @@ def incompatible(A, B, a, b):
 def check_pair(chk, ex, A, B, phi=(True, True)):
     """phi: for heavy hitters, whether each operand is built with phi=None (phi is not one of the
     property's merge parameters: operands that differ only in phi must merge)"""
+    if ("merge", A, B, phi) in chk.done:
+        return
+    chk.done.add(("merge", A, B, phi))
     name = "%s.merge(%s)" % (A, B)
     if phi != (True, True):
         name += "[phi %s/%s]" % tuple("default" if x else "given" for x in phi)
@@ -298,6 +301,9 @@ def factory_rows(chk, ex, only=None):
     for ctype, cls in (("linear", "CountMinLinear"), ("log16", "CountMinLog16"), ("log8", "CountMinLog8")):
         if only is not None and cls not in only:
             continue
+        if ("factory", cls) in chk.done:
+            continue
+        chk.done.add(("factory", cls))
         for given in ((True, False) if cls != "CountMinLinear" else (False,)):
             tagn = "CountMin(%r%s)" % (ctype, ", num_reserved given" if given else "")
             w, d, mc, nr = (Sym(z3.Int(n + "_f"), "int") for n in ("width", "depth", "max_count", "num_reserved"))
